@@ -1,0 +1,28 @@
+/*
+ * Verification hook points (compiled in only with -DLIBQB_VERIF).
+ *
+ * A harness installs qb_verif_hook_fn; every QB_VERIF_POINT() then reports
+ * (point id, object, two integers) to it.  Without the guard the macro is
+ * empty, and with the guard but no function installed it is a NULL test.
+ */
+#ifndef QB_VERIF_HOOK_H_DEFINED
+#define QB_VERIF_HOOK_H_DEFINED
+
+#ifdef LIBQB_VERIF
+typedef void (*qb_verif_hook_fn_t)(int point, const void *obj, long a, long b);
+extern qb_verif_hook_fn_t qb_verif_hook_fn;
+#define QB_VERIF_POINT(point, obj, a, b) \
+	do { if (qb_verif_hook_fn) qb_verif_hook_fn((point), (obj), (long)(a), (long)(b)); } while (0)
+#else
+#define QB_VERIF_POINT(point, obj, a, b) do { } while (0)
+#endif
+
+/* point ids */
+enum {
+	QB_VP_ARRAY_LOCKED = 100,	/* grow_lock acquired */
+	QB_VP_ARRAY_UNLOCK,		/* about to release grow_lock */
+	QB_VP_ARRAY_TABLE_READ,		/* about to read the bin table (a->bin / a->num_bins) */
+	QB_VP_ARRAY_TABLE_WRITE,	/* about to reallocate the bin table */
+};
+
+#endif /* QB_VERIF_HOOK_H_DEFINED */
